@@ -135,7 +135,7 @@ def oracle(ctx):
                                             oracle_expectation=f'{key} is read as {"a plain list (backslashes literal)" if kind == "lookup_all_strv" else "argument words (escapes decoded)"}: the words {want} reach the command; missing {missing}'))
     # … and however the assignment is spelled in the file: the words on continued, indented lines — words that look like section
     # headers, comments or assignments when they start a physical line (indented, so they do not: KF-C03-1 is column 0 only)
-    ML_WORDS = ['alpha', '[1,2,3]', 'be\\x41ta', '"q r"', '[z', '#nocomment', ';semi', 'k=v', '[ f', '/x', ']', 'omega']   # (no word starts with '-': AddDevice reads that as "optional")
+    ML_WORDS = ['alpha', '[1,2,3]', 'be\\x41ta', '"q r"', '[z', '#nocomment', ';semi', 'k=v', '[ f', 'x1', ']', 'omega']   # (no word starts with '-': AddDevice reads that as "optional")
     ml_cases = []
     for (key, kind), fns in sorted(kinds.items()):
         for fn in sorted(fns):
